@@ -43,7 +43,7 @@ fn process_wildcard<T: Queryable>(
             Data::new_refs(
                 object
                     .into_iter()
-                    .map(|(key, value)| Pointer::key(value, path.clone(), key))
+                    .map(|(key, value)| Pointer::member(value, path.clone(), key))
                     .collect(),
             )
         }
